@@ -399,6 +399,33 @@ def run(facts, cg):
                     if not ok:
                         finding('R-EXACTLEN', b.q, 'stale-buffer-length', 'the buffer handed out at %s is not brought to the size of the current range on every path to '
                                 'it: a zero-sized range is complete before the fill loop sizes the buffer, so what is delivered for it is the range before it' % st['loc'])
+    # ... and what is *read* for a range is the range: the buffer the reads go into is brought to the size of the range when it is
+    # not of that size (or always) - a buffer that "only ever grows" (`len < size`) lets the reads for a smaller range run on into
+    # the chunks behind it: bytes nobody asked for are read from the archive (and adjacent wanted bytes twice)
+    for b in facts.bodies.values():
+        if not b.id.startswith('bitar::archive_reader::io_reader::') or b.generated:
+            continue
+        for rbi, t in b.calls():
+            if not ('q' in t['callee'] and callee_q(t).split('::')[-1] == 'resize' and callee_q(t).startswith(('bytes::bytes_mut::BytesMut::', 'alloc::vec::Vec::'))
+                    and len(t['args']) > 1 and has_field(simplify(T.of_operand(b, t['args'][1])), 'size')):
+                continue
+            preds = b.preds()
+            for sbi in b.live:
+                sw = b.blocks[sbi]['term']
+                if sw['k'] != 'switch' or sw['op']['k'] not in ('copy', 'move'):
+                    continue
+                edges = set(sw['targets']) | {sw['otherwise']}
+                if rbi not in edges and not any(rbi in edges for _ in [0]):
+                    # the switch that decides the resize directly (its block is one of the targets, or one goto away)
+                    nxt = {x for e in edges for x in ([e] + [y for y in succs(b.blocks[e]['term'])] if not b.blocks[e]['stmts'] or True else [e])}
+                    if rbi not in nxt:
+                        continue
+                ct = simplify(T.of_operand(b, sw['op']))
+                if isinstance(ct, tuple) and ct[0] == 'binop' and ct[1] in ('Lt', 'Le', 'Gt', 'Ge') and any(n_[0] == 'call' and n_[1].split('::')[-1] == 'len' for n_ in walk(ct)) \
+                        and has_field(ct, 'size'):
+                    finding('R-EXACTLEN', b.q, 'grow-only-buffer', 'the read buffer is resized at %s only when it is %s the range: after a bigger range the reads for a smaller one run past '
+                            'its end into what is stored behind it' % (t['loc'], 'smaller than' if ct[1] in ('Lt', 'Le') else 'compared by order with'))
+            instances.append({'rule': 'R-EXACTLEN(read-extent)', 'function': b.q, 'resize_at': t['loc']})
     if n_ho < 1:
         finding('R-EXACTLEN', '-', 'floor-chunk-stream', 'the hand-out of the local chunk reader was not found (cannot decide)')
     if n_se < 1:
@@ -496,7 +523,12 @@ def run(facts, cg):
                         holder = st['pl']['p'][-1].get('n')
         if holder is None:
             continue
-        for bi in b.live:
+        # the request may be given up anywhere in the module (the stream's poll_next, a helper), not only where it is built
+        drop_bodies = [b] + [g for g in facts.bodies.values() if g is not b and g.id.startswith('bitar::archive_reader::http_reader::') and not g.generated and
+                             not any('q' in t_['callee'] and callee_q(t_).endswith('HttpRangeRequest::new') for _, t_ in g.calls())]
+        for b in drop_bodies:
+          dom = b.dominators()
+          for bi in b.live:
             for st in b.blocks[bi]['stmts']:
                 if st['k'] == 'assign' and st['pl']['p'] and st['pl']['p'][-1]['k'] == 'field' and st['pl']['p'][-1].get('n') == holder:
                     vt = simplify(T.of_rvalue(b, st['rv'], 0))
